@@ -308,6 +308,16 @@ macro_rules! bfv_read_only_fn {
                                 let s = sig(st, "iter_from", "items");
                                 st.ctx.fail("iter_from", s, format!("iter_from({k}) yields {} items (len hint {l})", got.len()), format!("the {} items from {k}", n - *k));
                             }
+                            set_op("bfv:iter_protocol");
+                            let want: Vec<W> = st.vals[*k..].iter().map(|&x| x as W).collect();
+                            if !st.ctx.failed() {
+                                st.ctx.out.checks += 8;
+                                let r = iter_protocol(|| v.iter_from(*k), &want, st.step * 31 + *k, true).or_else(|| iter_protocol(|| v.into_iter_from(*k), &want, st.step * 17 + *k + 5, true));
+                                if let Some(e) = r {
+                                    let s = sig(st, "iter_from", "iterator_protocol");
+                                    st.ctx.fail("iter_protocol", s, format!("iter_from({k}) over {n} elements: {e}"), "what the same calls give on a slice");
+                                }
+                            }
                             set_op("bfv:into_iter_from");
                             let got2: Vec<u128> = v.into_iter_from(*k).map(|x| x as u128).collect();
                             if got2 != st.vals[*k..] && !st.ctx.failed() {
